@@ -65,6 +65,109 @@ def _same(pm, orc, before, tag):
     orc.check(_idx_ok(pm), tag + ':index!=scan')
 
 
+def _prep_saved_versions(pm, kind, sv):
+    if kind in (6, 7):
+        pm.descriptions.handle_version_lookup['m9'] = sv + 2
+        pm.states.handle_version_lookup['m9'] = sv + 3
+        pm.context_states.handle_version_lookup['pcs9'] = sv + 4
+
+
+def _run_aborted(pm, kind, crash, val):
+    """The aborted transaction bodies (see `aborted`)."""
+    try:
+        if kind == 6:
+            from sdc11073.mdib import descriptorcontainers as dc
+            with pm.descriptor_transaction() as tr:
+                nd = dc.StringMetricDescriptorContainer('m9', 'ch0')
+                ns = pm.data_model.get_state_class_for_descriptor(nd)(nd)
+                if crash >= 1:
+                    tr.add_descriptor(nd, state_container=ns)
+                if crash >= 2:
+                    ent = pm.entities.new_entity(pm.data_model.pm_names.StringMetricDescriptor, 'm8', 'ch0')
+                    tr.write_entity(ent)
+                raise Crash
+        elif kind == 7:
+            with pm.context_state_transaction() as tr:
+                if crash >= 1:
+                    tr.mk_context_state('pc0', 'pcs9')
+                if crash >= 2:
+                    ent = pm.entities.by_handle('pc0')
+                    ent.new_state('pcs9b')
+                    tr.write_entity(ent, ['pcs9b'])
+                raise Crash
+        elif kind == 0:
+            with pm.metric_state_transaction(set_determination_time=False) as tr:
+                if crash == 0:
+                    raise Crash
+                st = tr.get_state('m0')
+                st.MetricValue.Value = val
+                if crash == 1:
+                    raise Crash
+                st.BodySite.append(pm_types.CodedValue(val))
+                if crash == 2:
+                    raise Crash
+                st.MetricValue.MetricQuality.Validity = pm_types.MeasurementValidity.INVALID
+                raise Crash
+        elif kind == 1:
+            with pm.context_state_transaction() as tr:
+                if crash == 0:
+                    raise Crash
+                st = tr.get_context_state('pcs0')
+                st.CoreData.Givenname = val
+                if crash == 1:
+                    raise Crash
+                st.ContextAssociation = CA.DISASSOCIATED
+                if crash == 2:
+                    raise Crash
+                tr.mk_context_state('pc0', 'pcs9')
+                raise Crash
+        elif kind == 2:
+            with pm.context_state_transaction() as tr:
+                if crash == 0:
+                    raise Crash
+                st = tr.get_context_state('lcs0')
+                st.LocationDetail.Bed = val
+                if crash == 1:
+                    raise Crash
+                st.Validator.append(pm_types.InstanceIdentifier(val))
+                if crash == 2:
+                    raise Crash
+                tr.disassociate_all('lc0')
+                raise Crash
+        elif kind == 3:
+            with pm.descriptor_transaction() as tr:
+                if crash == 0:
+                    raise Crash
+                d = tr.get_descriptor('ac0')
+                d.Source.append('m1')
+                if crash == 1:
+                    raise Crash
+                d2 = tr.get_descriptor('m0')
+                d2.Unit.Code = val
+                if crash == 2:
+                    raise Crash
+                tr.remove_descriptor('m1')
+                raise Crash
+        elif kind == 4:
+            ent = pm.entities.by_handle('m0')
+            ent.state.MetricValue.Value = val
+            ent.state.BodySite.append(pm_types.CodedValue(val))
+            ent.descriptor.Unit.Code = val
+            with pm.metric_state_transaction(set_determination_time=False) as tr:
+                if crash >= 1:
+                    tr.write_entity(ent)
+                raise Crash
+        else:
+            ent = pm.entities.by_handle('pc0')
+            ent.states['pcs0'].CoreData.Givenname = val
+            with pm.context_state_transaction() as tr:
+                if crash >= 1:
+                    tr.write_entity(ent, ['pcs0'])
+                raise Crash
+    except Crash:
+        pass
+
+
 def aborted(kind: int, crash: int, mv: int, sv: int, val: str, empty: bool) -> str:
     """
     Transaction body with up to 3 steps that write symbolic values into NESTED members of the objects handed out, aborted by an
@@ -84,106 +187,86 @@ def aborted(kind: int, crash: int, mv: int, sv: int, val: str, empty: bool) -> s
     orc = Oracle()
     try:
         pm, cap = _mk(mv, sv, empty_lists=empty)
-        if kind in (6, 7):
-            pm.descriptions.handle_version_lookup['m9'] = sv + 2
-            pm.states.handle_version_lookup['m9'] = sv + 3
-            pm.context_states.handle_version_lookup['pcs9'] = sv + 4
+        _prep_saved_versions(pm, kind, sv)
         before = _snap(pm)
-        try:
-            if kind == 6:
-                from sdc11073.mdib import descriptorcontainers as dc
-                with pm.descriptor_transaction() as tr:
-                    nd = dc.StringMetricDescriptorContainer('m9', 'ch0')
-                    ns = pm.data_model.get_state_class_for_descriptor(nd)(nd)
-                    if crash >= 1:
-                        tr.add_descriptor(nd, state_container=ns)
-                    if crash >= 2:
-                        ent = pm.entities.new_entity(pm.data_model.pm_names.StringMetricDescriptor, 'm8', 'ch0')
-                        tr.write_entity(ent)
-                    raise Crash
-            elif kind == 7:
-                with pm.context_state_transaction() as tr:
-                    if crash >= 1:
-                        tr.mk_context_state('pc0', 'pcs9')
-                    if crash >= 2:
-                        ent = pm.entities.by_handle('pc0')
-                        ent.new_state('pcs9b')
-                        tr.write_entity(ent, ['pcs9b'])
-                    raise Crash
-            elif kind == 0:
-                with pm.metric_state_transaction(set_determination_time=False) as tr:
-                    if crash == 0:
-                        raise Crash
-                    st = tr.get_state('m0')
-                    st.MetricValue.Value = val
-                    if crash == 1:
-                        raise Crash
-                    st.BodySite.append(pm_types.CodedValue(val))
-                    if crash == 2:
-                        raise Crash
-                    st.MetricValue.MetricQuality.Validity = pm_types.MeasurementValidity.INVALID
-                    raise Crash
-            elif kind == 1:
-                with pm.context_state_transaction() as tr:
-                    if crash == 0:
-                        raise Crash
-                    st = tr.get_context_state('pcs0')
-                    st.CoreData.Givenname = val
-                    if crash == 1:
-                        raise Crash
-                    st.ContextAssociation = CA.DISASSOCIATED
-                    if crash == 2:
-                        raise Crash
-                    tr.mk_context_state('pc0', 'pcs9')
-                    raise Crash
-            elif kind == 2:
-                with pm.context_state_transaction() as tr:
-                    if crash == 0:
-                        raise Crash
-                    st = tr.get_context_state('lcs0')
-                    st.LocationDetail.Bed = val
-                    if crash == 1:
-                        raise Crash
-                    st.Validator.append(pm_types.InstanceIdentifier(val))
-                    if crash == 2:
-                        raise Crash
-                    tr.disassociate_all('lc0')
-                    raise Crash
-            elif kind == 3:
-                with pm.descriptor_transaction() as tr:
-                    if crash == 0:
-                        raise Crash
-                    d = tr.get_descriptor('ac0')
-                    d.Source.append('m1')
-                    if crash == 1:
-                        raise Crash
-                    d2 = tr.get_descriptor('m0')
-                    d2.Unit.Code = val
-                    if crash == 2:
-                        raise Crash
-                    tr.remove_descriptor('m1')
-                    raise Crash
-            elif kind == 4:
-                ent = pm.entities.by_handle('m0')
-                ent.state.MetricValue.Value = val
-                ent.state.BodySite.append(pm_types.CodedValue(val))
-                ent.descriptor.Unit.Code = val
-                with pm.metric_state_transaction(set_determination_time=False) as tr:
-                    if crash >= 1:
-                        tr.write_entity(ent)
-                    raise Crash
-            else:
-                ent = pm.entities.by_handle('pc0')
-                ent.states['pcs0'].CoreData.Givenname = val
-                with pm.context_state_transaction() as tr:
-                    if crash >= 1:
-                        tr.write_entity(ent, ['pcs0'])
-                    raise Crash
-        except Crash:
-            pass
+        _run_aborted(pm, kind, crash, val)
         _same(pm, orc, before, 'aborted')
         orc.check(len(cap.sent) == 0, 'report-sent-for-aborted-transaction')
         orc.check(pm.current_transaction is None, 'transaction-left-open')
+    except Exception as ex:  # noqa: BLE001
+        return exc_result(orc, ex)
+    return orc.result()
+
+
+FOLLOW = ('metric_update', 'context_new_state', 'descriptor_update', 'descriptor_create', 'context_update')
+
+
+def _follow_up(pm, follow, val):
+    """An ordinary transaction that is committed (runs on the MDIB that saw the aborted transaction and on its twin)."""
+    if follow == 0:
+        with pm.metric_state_transaction(set_determination_time=False) as tr:
+            st = tr.get_state('m0')
+            st.MetricValue.Value = val
+            st.BodySite.append(pm_types.CodedValue(val))
+    elif follow == 1:
+        with pm.context_state_transaction() as tr:
+            tr.mk_context_state('pc0', 'pcs9')   # (not associated: association stamps the wall-clock time)
+    elif follow == 2:
+        with pm.descriptor_transaction() as tr:
+            d = tr.get_descriptor('m0')
+            d.Unit.Code = val
+            d2 = tr.get_descriptor('ac0')
+            d2.Source.append('m2')
+    elif follow == 3:
+        from sdc11073.mdib import descriptorcontainers as dc
+        with pm.descriptor_transaction() as tr:
+            nd = dc.StringMetricDescriptorContainer('m9', 'ch0')
+            tr.add_descriptor(nd, state_container=pm.data_model.get_state_class_for_descriptor(nd)(nd))
+    else:
+        with pm.context_state_transaction() as tr:
+            st = tr.get_context_state('lcs0')
+            st.LocationDetail.Bed = val
+            st.Validator.append(pm_types.InstanceIdentifier(val))
+
+
+def aborted_then_commit(kind: int, crash: int, follow: int, mv: int, sv: int, val: str, empty: bool) -> str:
+    """
+    History independence: an aborted transaction (bodies and crash points of `aborted`) followed by an ordinary committed
+    transaction (0 metric update, 1 new context state, 2 descriptor update, 3 descriptor creation of a remembered handle,
+    4 context update) ends in exactly the MDIB - and publishes exactly as many reports with the same versions - as the
+    committed transaction alone on a twin MDIB: the abort left nothing behind that a later commit picks up.
+    pre: 0 <= kind <= 7
+    pre: 0 <= crash <= 3
+    pre: 0 <= follow <= 4
+    pre: mv >= 0
+    pre: sv >= 0
+    pre: len(val) <= 2
+    post: __return__ == 'ok'
+    """
+    orc = Oracle()
+    try:
+        pm, cap = _mk(mv, sv, empty_lists=empty)
+        twin, cap2 = _mk(mv, sv, empty_lists=empty)
+        for m in (pm, twin):
+            _prep_saved_versions(m, kind, sv)
+        _run_aborted(pm, kind, crash, val)
+        orc.check(pm.current_transaction is None, 'transaction-left-open')
+        outcome = []
+        for m in (pm, twin):
+            try:
+                _follow_up(m, follow, val)
+                outcome.append('committed')
+            except Exception as ex:  # noqa: BLE001
+                outcome.append('raises:' + type(ex).__name__)
+        orc.check(outcome[0] == outcome[1], 'commit-after-abort-behaves-differently:' + outcome[0].split(':')[0])
+        a, b = _snap(pm), _snap(twin)
+        orc.check(a['version'] == b['version'], 'after-abort:mdib-version-differs')
+        orc.check(a['descriptors'] == b['descriptors'], 'after-abort:descriptor-content-differs')
+        orc.check(a['states'] == b['states'], 'after-abort:state-content-differs')
+        orc.check(a['context_states'] == b['context_states'], 'after-abort:context-state-content-differs')
+        orc.check(a['saved_versions'] == b['saved_versions'], 'after-abort:saved-versions-differ')
+        orc.check(len(cap.sent) == len(cap2.sent), 'after-abort:number-of-reports-differs')
+        orc.check(_idx_ok(pm), 'after-abort:index!=scan')
     except Exception as ex:  # noqa: BLE001
         return exc_result(orc, ex)
     return orc.result()
